@@ -88,18 +88,18 @@ def run(tier, replay):
             ("base64 decoder lemma (few,68,68,few)", "MC_Base64.tla", "MC_Base64_declemma_quick.cfg", 4, "mc", []),
         ]
 
-    n_rand = 1500 if thorough else 150
+    n_rand = 600 if thorough else 150
     tr = os.path.join(wd, "random.ndjson")
 
     def trace_job():
         # 3. random executions of the real code validated by TLC (runs alongside the TLC jobs above)
-        p = run_bin(codec, ["random", str(n_rand), "6000" if thorough else "1500"])
+        p = run_bin(codec, ["random", str(n_rand), "4000" if thorough else "1500"])
         if p.returncode != 0:
             raise vlib.ToolError("codec random failed: " + p.stderr[-1000:])
         with open(tr, "w") as f:
             f.write(p.stdout)
         recs = parse_jsonl(p.stdout)
-        t = run_tlc("Trace_Codec.tla", "Trace_Codec.cfg", D, workers=1, env=dict(JVM, TRACE=tr), timeout=1700, work_id="c18-trace", deque=True)
+        t = run_tlc("Trace_Codec.tla", "Trace_Codec.cfg", D, workers=1, env=dict(JVM, TRACE=tr), timeout=3000, work_id="c18-trace", deque=True)
         return recs, t
 
     def do(job):
@@ -107,7 +107,7 @@ def run(tier, replay):
             return job, trace_job()
         name, module, cfg, workers, kind, _ = job
         return job, run_tlc(module, cfg, D, workers=workers, coverage=(kind in ("mc", "mcgen") and bool(job[5])),
-                            timeout=1700, heap="8g" if thorough else "4g", env=JVM,
+                            timeout=3000, heap="6g" if thorough else "4g", env=JVM,
                             work_id="c18-" + "".join(ch for ch in name if ch.isalnum())[:40])
 
     # widest first; a handful of TLC processes at a time
@@ -158,7 +158,7 @@ def run(tier, replay):
     data = "\n".join(json.dumps(x, separators=(",", ":")) for x in vectors) + "\n"
 
     def replay_lines(text):
-        p = run_bin(codec, ["replay"], stdin_data=text, timeout=1700)
+        p = run_bin(codec, ["replay"], stdin_data=text, timeout=3000)
         res = [x for x in parse_jsonl(p.stdout) if x.get("summary")]
         if p.returncode != 0 or not res:
             raise vlib.ToolError("codec replay failed rc=%s: %s" % (p.returncode, p.stderr[-2000:]))
@@ -216,7 +216,7 @@ def run(tier, replay):
     idx = next(i for i, r in enumerate(small) if r["k"] == "b64e" and len(r["b"]) >= 4)
     small[idx] = dict(small[idx], b=[small[idx]["b"][0] ^ 1] + small[idx]["b"][1:])
     vlib.write_lines(tr, small)
-    t2 = run_tlc("Trace_Codec.tla", "Trace_Codec.cfg", D, workers=1, env=dict(JVM, TRACE=tr), timeout=600, work_id="c18-trace2", deque=True)
+    t2 = run_tlc("Trace_Codec.tla", "Trace_Codec.cfg", D, workers=1, env=dict(JVM, TRACE=tr), timeout=1500, work_id="c18-trace2", deque=True)
     if t2.violation != "invariant" or not t2.prints or len(t2.prints[-1].get("rejected", [])) != 1:
         raise vlib.ToolError("binding self-test: corrupted trace record was not rejected")
     ctx.add_part("binding_self_test", corrupted_vectors_rejected=list(got), corrupted_trace_record_rejected=True)
